@@ -970,3 +970,6 @@ def run(rep, repo, tier):
     rep.floor('R-CLAMP:post', 6)
     rep.floor('R-CLAMP:invariant', 2)
     rep.floor('R-STORAGE', 3)
+    import c09_roundtrip
+    c09_roundtrip.run_ext(rep, repo, tier)
+
